@@ -122,10 +122,16 @@ func (r *dataReader) Read(b []byte) (n int, err error) {
 				r.state = stateEOF
 				continue
 			}
-			r.state = stateData
+			// Not part of .\r\n. Emit the held \r and process c again.
+			r.r.UnreadByte()
+			c = '\r'
+			r.state = stateCR
 		case stateCR:
 			if c == '\n' {
 				r.state = stateBeginLine
+				break
+			}
+			if c == '\r' {
 				break
 			}
 			r.state = stateData
